@@ -35,8 +35,8 @@ ID = "C20"
 LEVEL = "exploration"
 TECHNIQUE = ("deterministic simulation of the cache file-system seam of Network.fromFile with fault injection "
              "(stale/foreign/torn/corrupted .snet) vs uncached-parse reference, plus structural invariants at seeded points")
-BUDGET = {"quick": (4000, 60), "thorough": (200000, 1200)}
-CHUNK = 2
+BUDGET = {"quick": (4000, 45), "thorough": (200000, 1200)}
+CHUNK = 1
 RULE = (
     "one run = one shipped map (quick: the non-empty .xodr files below 300 kB; thorough: all non-empty ones) copied to a "
     "scratch directory + a seeded sequence of 5-10 operations (load with useCache/writeCache/options from the option grid "
